@@ -29,3 +29,4 @@ Print Assumptions C11_iff.
 Theorem C11_refuted_acl :
   exists d, load_proc_desc d = LoadErr EAclAssert.
 Proof. exact C11_refuted_acl_lemma. Qed.
+Print Assumptions C11_refuted_acl.
